@@ -134,14 +134,15 @@ def handleAt (inp out : Toks) : String :=
     let maxtiles := (Float.ofNat (2^z % 2^32))
     -- Float twin of the x fraction (same operators, same order as maptile.Fraction)
     let mfx := (lon / 360.0 + 0.5) * maxtiles
-    if mfx.toBits != fxb then "diff fx " ++ fbits mfx else
     let fx := Float.ofBits fxb
     let fy := Float.ofBits fyb
     -- uint32(f) truncation (f is in range here), then At's clamp to the last column
     let n := 2^z
     let mtx := if fx.floor.toUInt64.toNat ≥ n then n - 1 else fx.floor.toUInt64.toNat
-    if mtx != tx then "diff tx " ++ toString mtx else
-    if fy ≥ 0 && fy.floor.toUInt64.toNat != ty then "diff ty" else
+    let agree := mfx.toBits == fxb && mtx == tx && !(fy ≥ 0 && fy < Float.ofNat n && fy.floor.toUInt64.toNat != ty)
+    let fin (s : String) : String :=
+      if s.startsWith "propfail" || agree then s else s!"diff fx={fbits mfx} tx={mtx}"
+    fin <|
     -- property: the tile is valid
     if !(tx < n && ty < n) then "propfail at-valid" else
     match b with
